@@ -151,6 +151,10 @@ class World:
                 return "ok", v
             if isinstance(v, (_obj.ModelElement, type)):
                 cur = self.reg(v)
+            elif hasattr(v, path[i + 1]):
+                # a plain value that does have the next attribute (an Enum member's `name` / `value`, a str method):
+                # outside the world the model describes (its plain values carry no attributes) - not compared
+                return "skip", "attribute of a plain value"
             else:
                 return "attrerr", None  # plain values and lists have none of the attributes the paths name
         return "ok", self.raw[idx]
